@@ -68,12 +68,12 @@ claim("C03", SIM + " (incl. single failures of the randomness source in a third 
       "DESIGN.md section 5 C03")
 
 claim("C11", SIM + " (incl. restarts whose randomness read fails, questions that cannot be encoded, long secrets differing late); oracle: outcome table per SMP run (success iff secrets byte-equal and same session); relay world must never succeed; a start that reports success must get the peer asked",
-      "Two honest real parties run SMP repeatedly with PRNG-chosen secrets (equal, one bit apart, empty, 1 byte, 4 KiB, binary), questions, initiator, answer delay, and ordinary traffic/heartbeats/rotations interleaved between SMP steps; in a quarter of the runs a man in the middle (reference implementation, two separately keyed sessions) forwards the SMP TLVs unchanged. "
+      "Two honest real parties run SMP repeatedly with PRNG-chosen secrets (equal, one bit apart, empty, 1 byte, 4 KiB, binary), questions, initiator, answer delay, restarts by the initiator and counter-requests by the side that is being asked, and ordinary traffic/heartbeats/rotations interleaved between SMP steps; in a quarter of the runs a man in the middle (reference implementation, two separately keyed sessions) forwards the SMP TLVs unchanged. "
       "Equal secrets in one session: both report success; different: nobody reports success, responder reports failure, initiator failure or abort; relay: never success.",
       "trusted: harness run bookkeeping; refotr as the relay's protocol engine",
       "DESIGN.md section 5 C11")
 
-claim("C12", SIM + "; oracle: no success event (the lying peer never knows the secret; in insider runs she does, and no run containing a deviant-but-verifying message - surplus values, exponents plus a multiple of q, fixed-point proofs for degenerate elements - may succeed), no panic/hang, recovery run with equal secrets succeeds under three set-ups (who aborts, who starts)",
+claim("C12", SIM + "; oracle: no success event (the lying peer never knows the secret; in insider runs she does, and no run containing a deviant-but-verifying message - surplus values, exponents plus a multiple of q, fixed-point proofs for degenerate elements 0, 1, p-1, p, 2p - may succeed), no panic/hang, recovery run with equal secrets succeeds under three set-ups (who aborts, who starts)",
       "A real victim is in an authenticated encrypted session with a lying peer built on the reference implementation (all SMP exponents exported, verification switched off on its side). The peer sends honest-but-wrong-secret messages, messages with any MPI replaced by boundary values (proofs stale), messages built from forced exponents 0/1/q/q-1/q+1 (proofs recomputed), wrong counts / truncations / missing question terminator, out-of-sequence and duplicated messages and aborts, while the victim's user calls start/answer/abort at arbitrary points; a follow-up driver completes multi-step attacks. "
       "Any success event or panic on the victim is a violation; afterwards an honest run with equal secrets must succeed on both sides.",
       "trusted: refotr SMP engine (its honest path interoperates with otr3 in both roles, C10/C11); sampling of the (message, field, value) table, reported as probes",
@@ -82,7 +82,7 @@ claim("C12", SIM + "; oracle: no success event (the lying peer never knows the s
 claim("C13", "deterministic simulation with fault injection: complete enumeration of the failing Rand read index k x 4 failure modes over a scripted scenario, enumeration of truncation / I/O-error offsets of the key file through a simulated reader, seeded exploration of hostile Receive input in 10 conversation states; monitors: recovered panic, wall-clock watchdog with seed attribution, per-call heap allocation bound; recovery probe",
       "(a) For a scripted scenario per version (AKE in both roles, traffic with rotation, SMP in both roles, extra key, End) the k-th read from Conversation.Rand fails for every k below the number of reads the scenario makes (28-30, measured and reported) in each of 4 modes; no call may panic and afterwards a fresh exchange and a message each way must work. "
       "(b) ImportKeys reads the exported key file through a simulated reader truncated at / failing at every offset (stride 7 in quick, 1 in thorough) in 1-byte, 13-byte and whole chunks, plus hostile files (deep/unbalanced parentheses, huge numbers, garbage); it must return, never with a key that was not exported. "
-      "(c) A victim driven to one of 10 states receives PRNG-generated hostile input of 7 classes incl. authenticated-but-malicious payloads built by the reference peer; the public parsers get the same bytes. Fatal runtime errors (stack overflow, out of memory, hang) kill the worker and are attributed to the seed.",
+      "(c) A victim driven to one of 10 states receives PRNG-generated hostile input of 7 classes incl. authenticated-but-malicious payloads built by the reference peer (single malformed TLVs and sequences of two or three well-formed TLVs - disconnect, padding, SMP 1/1Q/2/3/4, abort, extra key, unknown - in one message); the public parsers get the same bytes. Fatal runtime errors (stack overflow, out of memory, hang) kill the worker and are attributed to the seed.",
       "trusted: harness monitors; allocation bound 16 MiB + 64 x input per call; stack depth proportional to input is not flagged unless the process dies",
       "DESIGN.md section 5 C13", category="fault_enumeration")
 
@@ -93,7 +93,7 @@ claim("C14", SIM + "; oracles: twin world without fragmentation (same seed, same
       "DESIGN.md section 5 C14")
 
 claim("C15", SIM + "; oracle: binding/isolation rules evaluated on every delivery from the tags the harness put on the wire; public helper compared with an independent header reader",
-      "Alice, two instances of Bob (same key, different tags) and an attacker who re-tags genuine messages and fragments with 12 tag combinations in every state and order; adversarial randomness for the own-tag generator. Own tag >= 0x100; the peer tag only ever changes from unknown to the sender tag of a message with valid tags addressed to this conversation; once bound, foreign or malformed-tag traffic yields no plaintext, reply, security/SMP/key event or session change; a genuine instance still completes the handshake; ExtractInstanceTags agrees with the header of every emitted message and fragment.",
+      "Alice, two instances of Bob (same key, different tags) and an attacker who re-tags genuine messages and fragments with 12 tag combinations in every state and order; adversarial randomness for the own-tag generator. Own tag >= 0x100; the peer tag only ever changes from unknown to the sender tag of a message with valid tags addressed to this conversation; once bound, foreign or malformed-tag traffic yields no plaintext, reply, security/SMP/key event or session change; a genuine instance still completes the handshake; a fresh client of Alice's account that has not generated its own tag yet ignores (no plaintext, reply, binding or session) everything the peer addressed to Alice; ExtractInstanceTags agrees with the header of every emitted message and fragment.",
       "trusted: harness; a well-formed message from an unknown valid instance binds an unbound conversation by design and is not counted as an attack",
       "DESIGN.md section 5 C15")
 
